@@ -255,7 +255,10 @@ class _StepGraph:
         Args:
             path: The path to the step in the hierarchy.
         """
-        self._sequential_steps.append(path)
+        # a step registered again (a structural update put a new step
+        # at the path of an old one) keeps its place and runs once
+        if path not in self._sequential_steps:
+            self._sequential_steps.append(path)
         self._validate()
 
     def get_execution_layers(self) -> List[List[HierarchyPath]]:
